@@ -152,7 +152,8 @@ Inductive op :=
 | OpMode (m : Z) | OpFillv (v : Z) | OpBlock (n : Z)
 | OpWrite (us : bool) (start stride count vals : list Z)
 | OpRead (us : bool) (start stride count : list Z)
-| OpInfo | OpReopen.
+| OpInfo | OpReopen
+| OpReopenRO.     (* SDend + SDstart(DFACC_READ): the same array, read-only session *)
 
 Inductive sout :=
 | SRet (r : res)
@@ -186,7 +187,7 @@ Definition s_step (a : arr) (o : op) : arr * sout :=
                   | d :: ds => (if a_unlim a then (a_lo a, a_hi a) else (d, d)) :: map (fun x => (x, x)) ds
                   | [] => [] end in
       (a, SInfo dims (a_userfill a))
-  | OpReopen =>
+  | OpReopen | OpReopenRO =>
       (mkArr (a_shape a) (a_unlim a) (a_lo a) (a_hi a) true (a_userfill a) (a_dfill a) (a_touched a) (a_cells a), SNone)
   end.
 
